@@ -880,7 +880,7 @@ def oracles_fault(op, S0, S1, SF, outF, sim, stats, versions=None):
     truth = _truth_info(op, S0) if op["op"] == "sync" else None
     for f in sorted(set(S0) | set(S1) | set(SF)):
         a, b, c = S0.get(f), S1.get(f), SF.get(f)
-        tk, pre = None, None
+        tk, pre, kn = None, None, []
         if op["op"] == "sync":
             kn = [(k, n) for k, n, ff in iter_targets(op) if ff == f]
             if kn:
@@ -892,9 +892,10 @@ def oracles_fault(op, S0, S1, SF, outF, sim, stats, versions=None):
             stats["c20_cells"][cellbase] = stats["c20_cells"].get(cellbase, 0) + 1
         if c == a or c == b:
             continue
-        if versions and c is not None and sha(c) in versions.get(f, ()):
-            # the file is written more than once by this operation (it is named under two kinds): a complete state the
-            # fault-free run passes through between two of its writes is "completely rewritten", too
+        if versions and len(kn) > 1 and c is not None and sha(c) in versions.get(f, ()):
+            # the file is named under two kinds, so this operation rewrites it once per kind: a complete state the
+            # fault-free run passes through between two of those rewrites is "completely rewritten", too.  (Only then:
+            # a file named once that is written twice - say created empty, filled in later - has no such excuse.)
             stats["intermediate_complete_state_accepted"] = stats.get("intermediate_complete_state_accepted", 0) + 1
             continue
         if c is not None and b is None and f not in named:
